@@ -32,6 +32,8 @@ RULE = (
     "later step AND over the steps at least one label was granted and one "
     "denied (for managers with a random generator additionally an extra "
     "query was made while budget was left).")
+RULE += (" Further generated dimensions (added while closing seeded "
+         "changes): " + 'queried indices handed to update as int32 arrays; budgets with non-integer reciprocal; update-only warm-up; per-instance utility_weight' + ".")
 ASSUMPTIONS = [
     "random_state is always an int (None would share numpy's global "
     "generator between the twins)",
